@@ -1,6 +1,7 @@
 (* C08 — Error values propagate through operators and can be trapped.
    Property theorems only; proofs are in Proofs/ErrorFlowProofs.v. *)
 From HX Require Import Model.Value Model.Operators Model.Logic Model.ErrorFlow Proofs.ErrorFlowProofs.
+From HX Require Model.Lexer Model.Interp Proofs.LRfull Proofs.ErrorLiteral.
 Open Scope Z_scope.
 
 (* an error operand of an arithmetic, comparison or concatenation operator is the result, the left one first *)
@@ -74,6 +75,21 @@ Proof.
   eapply pr_bin_r; [reflexivity|reflexivity|]. eapply pr_sum; [constructor; [|constructor]|]; vm_compute; reflexivity.
 Qed.
 
+
+(* ---------- through the real LR driver (Proofs/LRfull.v): an error literal written anywhere in a formula of the
+   reference grammar makes the whole formula report that error; a raised error cannot be trapped ---------- *)
+Theorem C08_raised_error_is_reported : forall h s e er, s <> [] -> Lexer.lex s = Lexer.LexOk (LRfull.xtoks e) -> LRfull.xwp e ->
+  fst (LRfull.xval h e) = Interp.RRaise er -> fst (Interp.parse_formula h s) = Interp.PError er.
+Proof. exact ErrorLiteral.raised_error_is_reported. Qed.
+Theorem C08_error_literal_left_operand : forall h b s r, LRfull.xval h (LRfull.XBin b (LRfull.XErr s) r) = (Interp.RRaise (Interp.err_of_text s), []).
+Proof. exact ErrorLiteral.error_literal_left. Qed.
+Theorem C08_error_literal_right_operand : forall h b l s v evs, LRfull.xval h l = (Interp.ROk v, evs) ->
+  LRfull.xval h (LRfull.XBin b l (LRfull.XErr s)) = (Interp.RRaise (Interp.err_of_text s), evs).
+Proof. exact ErrorLiteral.error_literal_right. Qed.
+Theorem C08_error_literal_argument : forall h name pre s post vs evs, LRfull.xvals (LRfull.xval h) pre = (Interp.ROk vs, evs) ->
+  LRfull.xval h (LRfull.XCall name (pre ++ LRfull.XErr s :: post)) = (Interp.RRaise (Interp.err_of_text s), evs).
+Proof. exact ErrorLiteral.error_literal_argument. Qed.
+
 Print Assumptions C08_operator_left_error.
 Print Assumptions C08_tree_right.
 Print Assumptions C08_error_literal_reports.
@@ -82,3 +98,5 @@ Print Assumptions C08_traps_observe.
 Print Assumptions C08_IFERROR_iff.
 Print Assumptions C08_aggregate_error.
 Print Assumptions C08_raised_error_not_trapped.
+Print Assumptions C08_raised_error_is_reported.
+Print Assumptions C08_error_literal_argument.
